@@ -199,3 +199,39 @@ pub fn validity(fd: Fd, shape: &Shape, cols: &[Vec<u128>], values: &[Vec<u128>])
 pub fn cubic_supported(fd: Fd) -> bool {
     fd != Fd::F128
 }
+
+// THE LIBRARY'S OWN DEFINITION OF TRACE VALIDITY
+// ================================================================================================
+
+fn lib_validate_g<B: Fld>(shape: &Arc<Shape>, options: &ProofOptions, cols: &[Vec<u128>], values: &[Vec<u128>]) -> Result<(), String> {
+    use winter_air::{Air, AuxRandElements, LagrangeKernelRandElements};
+    use winter_prover::{AuxTraceWithMetadata, Trace};
+    let pubs = GPub::<B> { shape: shape.clone(), values: to_field::<B>(values) };
+    let r = catch(|| {
+        let trace = GTrace::<B>::new(shape, to_field::<B>(cols));
+        let air = GAir::<B>::new(trace.info().clone(), pubs, options.clone());
+        // auxiliary segment: built honestly from arbitrary (fixed) random elements, over the base field
+        let aux = shape.aux.as_ref().map(|a| {
+            let rands: Vec<B> = (0..a.rands).map(|k| B::from(1000 + 7 * k as u32)).collect();
+            let lagr: Option<Vec<B>> = if a.lagrange { Some((0..shape.log_n).map(|k| B::from(3 + 2 * k)).collect()) } else { None };
+            let aux_trace = crate::genair::build_aux::<B, B>(shape, trace.main_segment(), &rands, lagr.clone());
+            AuxTraceWithMetadata {
+                aux_trace,
+                aux_rand_elements: AuxRandElements::new_with_lagrange(rands, lagr.map(LagrangeKernelRandElements::new)),
+                gkr_proof: None,
+            }
+        });
+        trace.validate::<GAir<B>, B>(&air, aux.as_ref());
+    });
+    r.map_err(|p| p.msg)
+}
+
+/// `Trace::validate` of the library (the executable definition of validity that the prover uses in debug builds),
+/// run on the main trace given as residues; `Err(message of its assertion)` when it calls the trace invalid
+pub fn library_validate(fd: Fd, shape: &Arc<Shape>, options: &ProofOptions, cols: &[Vec<u128>], values: &[Vec<u128>]) -> Result<(), String> {
+    match fd {
+        Fd::F62 => lib_validate_g::<f62::BaseElement>(shape, options, cols, values),
+        Fd::F64 => lib_validate_g::<f64::BaseElement>(shape, options, cols, values),
+        Fd::F128 => lib_validate_g::<f128::BaseElement>(shape, options, cols, values),
+    }
+}
